@@ -81,3 +81,12 @@ package sqlx
 //@   requires in != nil
 //@   ensures len(result.([]string)) == old(len(in.values)) && len(in.values) == 0 && in.values == nil
 //@   modifies in.values
+
+// begin wraps the driver transaction in txSession, whose Commit and Rollback are the promoted methods of *sql.Tx themselves:
+// whatever the driver reports when a transaction is ended reaches transactOnConn (and from there the caller) unfiltered
+//@ func begin
+//@   property C14
+//@   results tx, err
+//@   nomethods txSession: Commit, Rollback
+//@   ensures implies(err != nil, tx == nil)
+//@   ensures implies(err == nil, tx != nil && typeIs(tx, txSession))
